@@ -54,3 +54,29 @@ contract("valida.schema:ValidatedData.num_rules_tested", variants=[dict(self=VD(
          ensures=lambda self, result:
              result == total_tested(self.rule_tests) and result == total_tested(self.rule_tests[1:] + self.rule_tests[:1]),
          raises={}, serves=["C06"])
+
+
+# ------------------------------------------------------------------------------------------ one rule test per rule
+from pyvc.contracts import FreshObj, TupleOf as _TupleOf
+import valida.data
+from contracts.ruleserial import ApiRule, ApiSchema, CONDS
+from pyvc.contracts import Str, Int
+
+_RA = ApiRule([Str()], CONDS[0], None)
+_RC = ApiRule([Str(), Int()], CONDS[1], {})
+contract(
+    "valida.schema:ValidatedData.__init__",
+    params=dict(self=FreshObj(ValidatedData), data=Obj(valida.data.Data, by_ref=True, _keys=_TupleOf(), _values=_TupleOf(), _is_list=Bool())),
+    variants=[dict(schema=s) for s in (ApiSchema([]), ApiSchema([_RA]), ApiSchema([_RC, _RA]), ApiSchema([_RA], twice=True),
+                                       ApiSchema([_RC, _RA], twice=True))],
+    requires=lambda data: len(data._keys) == len(data._values) and len(data._keys) > 0,
+    ensures=lambda self, schema, data:
+        len(self.rule_tests) == len(schema.rules)
+        and all(t.rule is r for t, r in zip(self.rule_tests, schema.rules))
+        and self.schema is schema and self.data is data,
+    raises_any=True,
+    fuel=True,
+    serves=["C06"],
+    note="validating applies every rule: one rule test per rule of the schema, in the schema's order, repeated rules included "
+         "(cast-free rules; what a rule test holds is RuleTest._test's contract)",
+)
